@@ -978,7 +978,7 @@ class NativeVC:
         wrapper.__name__ = parts[-1]
         wrapper.__qualname__ = qual
         self._patches.append((owner, parts[-1], orig, parts[-1] in owner.__dict__))
-        setattr(owner, parts[-1], staticmethod(wrapper) if is_static else wrapper)
+        setattr(owner, parts[-1], staticmethod(wrapper) if is_static else property(wrapper) if isinstance(orig, property) else wrapper)
         if not isinstance(owner, type):
             # module-level function: also patch every `from m import f` alias of the same object
             for m, name in _aliases_of(orig, owner):
